@@ -443,13 +443,14 @@ func c07One(s c07Subject, d c07Damage, dir string, cov *Cov, r *Rand) *Fail {
 // C14
 
 type c14Subject struct {
-	cfg   ref.IndexCfg
-	segs  []c14Seg
-	msgs  []ref.Msg
-	keys  [][]byte
-	model *ref.Model
-	calls []readCall
-	base  []callResult
+	emptyHead bool
+	cfg       ref.IndexCfg
+	segs      []c14Seg
+	msgs      []ref.Msg
+	keys      [][]byte
+	model     *ref.Model
+	calls     []readCall
+	base      []callResult
 }
 
 type c14Seg struct {
@@ -580,6 +581,18 @@ func genC14Subject(r *Rand, i int) *c14Subject {
 		s.msgs = append(s.msgs, ms...)
 	}
 	s.model = &ref.Model{Cfg: s.cfg, Live: s.msgs, Next: s.msgs[len(s.msgs)-1].Offset + 1}
+	if i%4 == 2 {
+		// an empty head segment (what deleting the head's last or all messages leaves): the newest
+		// message then lives in a segment that Open has no reason to read
+		if r.Bool() {
+			off += int64(1 + r.Intn(2)) // the deleted tail
+		}
+		seg := c14Seg{base: off, log: ref.EncodeLog(nil, ref.V2)}
+		seg.index = ref.EncodeIndex(nil, ref.V2, s.cfg)
+		s.segs = append(s.segs, seg)
+		s.model.Next = off
+		s.emptyHead = true
+	}
 	// the call list
 	for o := int64(-2); o <= s.model.Next+1; o++ {
 		for _, mx := range []int64{1, 3, 40} {
@@ -614,6 +627,14 @@ func (s *c14Subject) write(dir string, dseg int, dlog []byte) {
 		os.WriteFile(filepath.Join(dir, ln), lg, 0o600)
 		os.WriteFile(filepath.Join(dir, in), seg.index, 0o600)
 	}
+}
+
+func (s *c14Subject) bases() []int64 {
+	var out []int64
+	for _, seg := range s.segs {
+		out = append(out, seg.base)
+	}
+	return out
 }
 
 func (s *c14Subject) segOf(off int64) int {
@@ -679,6 +700,9 @@ type c14Damage struct {
 func genC14Damages(s *c14Subject, r *Rand, thorough bool) []c14Damage {
 	var out []c14Damage
 	for si, seg := range s.segs {
+		if len(seg.spans) == 0 {
+			continue // the empty head holds no record that could be overwritten
+		}
 		L := len(seg.log)
 		// single-bit flips: every bit (thorough) or 3 bits per byte
 		for p := 0; p < L; p++ {
@@ -913,7 +937,15 @@ func runC14(cfg *RunCfg, rep *Reporter, cov *Cov) {
 func c14One(cfg *RunCfg, rep *Reporter, cov *Cov, s *c14Subject, si int, d c14Damage, dir string) {
 	seg := s.segs[d.seg]
 	pc := c14PosClass(seg, d)
-	role := []string{"oldest", "middle", "middle", "head"}[d.seg]
+	role := "middle"
+	switch {
+	case d.seg == len(s.segs)-1:
+		role = "head"
+	case d.seg == 0:
+		role = "oldest"
+	case s.emptyHead && d.seg == len(s.segs)-2:
+		role = "newest-before-empty-head"
+	}
 	// state predicate of a known format weakness: V1 files carry no magic, they are recognised by their
 	// first 8 bytes equalling the base offset - a log of the base-0 segment whose beginning is zero
 	// filled therefore reads as a V1 file of empty records (offset 0, time 0, CRC of nothing = 0)
@@ -923,7 +955,7 @@ func c14One(cfg *RunCfg, rep *Reporter, cov *Cov, s *c14Subject, si int, d c14Da
 			sig = "v1-misparse(zero-filled log of the base-0 segment)"
 		}
 		rp := map[string]any{"subject": si, "segment": d.seg, "damage": d.kind, "from": d.from, "to": d.to, "pos_class": pc, "seed": cfg.Seed,
-			"segment_bases": []int64{s.segs[0].base, s.segs[1].base, s.segs[2].base, s.segs[3].base}, "damaged_log_hex": fmt.Sprintf("%x", d.log), "messages": msgSummaries(s.msgs), "cfg": s.cfg.String()}
+			"segment_bases": s.bases(), "empty_head": s.emptyHead, "damaged_log_hex": fmt.Sprintf("%x", d.log), "messages": msgSummaries(s.msgs), "cfg": s.cfg.String()}
 		if c != nil {
 			rp["call"] = c.String()
 		}
@@ -935,6 +967,12 @@ func c14One(cfg *RunCfg, rep *Reporter, cov *Cov, s *c14Subject, si int, d c14Da
 	if err != nil {
 		if isPanic(err) {
 			report("open:panic:"+panicFrame(err), fmt.Sprintf("Open panicked on a damaged directory: %v", err), nil)
+			return
+		}
+		if d.overwrite && d.seg != len(s.segs)-1 {
+			// Open with default options reads the head segment only: every call answered from the
+			// undamaged files must still be possible
+			report(fmt.Sprintf("open-fails:%s:%s:%s", role, d.kind, errClass(err)), fmt.Sprintf("reopen with default options failed (%s) after %s at [%d,%d) of the %s segment, a file that Open does not need: no call answered from the other segment files can be made", errText(err), d.kind, d.from, d.to, role), nil)
 			return
 		}
 		cov.Add("outcome.open-fails", 1)
